@@ -269,6 +269,7 @@ def oracle_shard(args):
         except orc.OutOfDomain: out['ood'] += 1; continue
         out['n'] += 1
         sh = gen.shape(spec)
+        out.setdefault('keys', []).append(json.dumps(sh, sort_keys=True))
         for k, v in sh.items(): out['dist']['%s=%s' % (k, v)] += 1
         if i < 2: out['samples'].append(sh)
         for f in fails: out['fails'].append((spec, f))
@@ -321,7 +322,8 @@ def oracle(ctx, n, name='oracle-generated-objects'):
             auto = bool(spec['simulator'])
             ctx.failure(name, classify(f, spec['config'], auto), {'spec': spec}, '%s %s: %s' % f, 'the round trip statement of C01')
     ctx.evaluations += total
-    for k, v in dist.items(): ctx.distinct.add(k)
+    for o in outs:
+        for k in o.get('keys', []): ctx.distinct.add(k)
     ctx.oracle_cases(name, total, **{k: v for k, v in sorted(dist.items())})
     ctx.extra.setdefault('input_distribution', {}).update({name: dict(sorted(dist.items()))})
     return total
